@@ -182,6 +182,21 @@ func init() {
 							state = vpRandBytes(rng, 3000, "ab:") + ":" + vpRandBytes(rng, 3000, "/a")
 						case "percent":
 							state = "%zz%00:" + "%"
+						case "blanks":
+							// 8 to 10 bytes before the colon, most of them white space on either side of a few letters
+							ws := []string{" ", "\t", "\n", "\r", "\u00a0"}
+							n := 8 + rng.Intn(3)
+							k := rng.Intn(4)
+							lead := rng.Intn(n - k + 1)
+							state = ""
+							for i := 0; i < lead; i++ {
+								state += ws[rng.Intn(3)]
+							}
+							state += vpRandBytes(rng, k, "abc")
+							for len(state) < n {
+								state += ws[rng.Intn(len(ws))]
+							}
+							state += ":/"
 						}
 						q := url.Values{"code": {[]string{"x", "", vpRandBytes(rng, 20, "ab%")}[rng.Intn(3)]}}
 						target = w.prefix() + "/callback?" + q.Encode() + "&state=" + url.QueryEscape(state)
